@@ -78,7 +78,7 @@ def task_one(t):
         for fs_ in fs:
             for q in sweep.subsets(names):
                 for fa in (False, True):
-                    for rename in ({x: xp}, {xp: x}):
+                    for rename in ({x: xp}, {xp: x}, {}):
                         case = dict(task=t, trans=U.fmt(ft), set=U.fmt(fs_), rename=rename,
                                     qvars=list(q), forall=fa)
                         try:
